@@ -184,6 +184,10 @@ def build(ctx, cfg):
     n_frames = shape[0] if with_seg else max(shape[0], N)
     pre["times"] = And([And(0 <= p.t0[i], p.t0[i] < n_frames) for i in range(N)])
     pre["tids"] = And([And(1 <= p.tid0[i], p.tid0[i] <= N + 1) for i in range(N)])
+    # the ids are those of a valid solution (Inv items 2 and 3, local form): the real constructor keeps valid ids
+    # and recomputes invalid ones, so only valid models replay faithfully
+    pre["tracklets"] = I.partition_local(sh, p.tid0, lambda a, b: sh.outdeg[a] == 1)
+    pre["lineages"] = I.partition_local(sh, p.lid0, lambda a, b: True)
     ctx.assume(And(list(pre.values())))
     seg = None
     if with_seg:
@@ -359,8 +363,21 @@ def _harness(ctx, cfg):
         ctx.oblige("C15.no_missing_parent", And(cs), "C15")
         if cfg.get("export_seg"):
             seg_arg, in_vals, out_vals = CAP["map_array"]
-            ok = seg_arg is p.seg and sorted(int(x) for x in in_vals) == sorted(got) and CAP.get("tif") == "MAPPED"
-            ctx.oblige("C15.segmentation_masks_exact", ok, "C15")
+            ok = seg_arg is p.seg and CAP.get("tif") == "MAPPED"
+            # contract of skimage.util.map_array: a cell whose label is in_vals[k] becomes out_vals[k], every other
+            # cell 0.  Required: the mask of an exported node carries its track id, everything else is background.
+            iv, ov = [int(x) for x in in_vals], [int(x) for x in out_vals]
+            cs = [z3.BoolVal(bool(ok) and len(iv) == len(ov))]
+            for idx in np.ndindex(*p.seg.c.shape):
+                cell = p.seg0[idx]
+                mapped = z3.IntVal(0)
+                for a, b in zip(iv, ov):
+                    mapped = If(cell == a, z3.IntVal(b), mapped)
+                want = z3.IntVal(0)
+                for i in range(n):
+                    want = If(And(cell == p.ids[i], keep[i]), p.tid0[i], want)
+                cs.append(mapped == want)
+            ctx.oblige("C15.segmentation_masks_exact", And(cs), "C15")
     elif op == "save":
         ifmt.save_tracks(tr, _Dir())
         ctx.tag("exported")
